@@ -1,6 +1,11 @@
 import LitexProofs.Clock.Params
 import LitexProofs.Clock.IntelGowin
 import LitexProofs.Clock.QRat
+import LitexProofs.Clock.Emit
+import LitexProofs.Clock.Gw5a
+import LitexProofs.Clock.Efinix
+import LitexModel.Clock.EmitB
+import LitexModel.Generated.ClockRangesB
 import LitexModel.Generated.ClockRanges
 /-
   C20 — Computed PLL/clock configurations meet the request and the device limits.
@@ -15,7 +20,9 @@ import LitexModel.Generated.ClockRanges
   a range), all input frequencies and all lists of (frequency, phase, margin) requests.
   Covered by theorems: Xilinx generic search (S6PLL, S6DCM, S7PLL, S7MMCM, USPLL, USMMCM, USPPLL) and USPMMCM,
   ECP5, iCE40, NX, Intel (ALTPLL best-of search), Gowin GW1N/GW2A, NXOSCA and GW1NOSC divider choices.
-  GW5A and Efinix Trion: oracle-only tie (no Lean model).
+  GW5A (best-of search, LitexModel/Clock/Gw5a.lean) and Efinix Trion (feedback-mode search, LitexModel/Clock/Efinix.lean),
+  the complete emitted Instance of every helper (LitexModel/Clock/Emit.lean, EmitB.lean) and the CologneChip CC_PLL
+  request check (session 2).
 -/
 namespace Litex.C20
 open Litex.Clock
@@ -293,5 +300,223 @@ theorem gwosc_divider_sound_complete (lo hi : Nat) (osc : Q) (o : Out) :
   ⟨fun _ h => gOscDiv_some h, gOscDiv_none⟩
 
 example : nxOscDiv Gen.nxoscLo Gen.nxoscHi Gen.nxoscHf ⟨⟨10000000, 1⟩, ⟨0, 1⟩, ⟨5, 100⟩⟩ = some 42 := by decide +kernel
+
+/-! ## The emitted primitive: placed parameters, source selectors and port wiring = the configuration
+
+  `…Emit` (LitexModel/Clock/Emit.lean) is the COMPLETE item list of the Instance `do_finalize` emits (every parameter,
+  port connection and attribute); the harness reads all items back from the real Instance and compares the two
+  dictionaries key by key.  The theorems below say, for ALL requests and configurations, which item carries which
+  number of the configuration. -/
+
+/-- params_match (rPLL / PLLVR, every configuration-carrying item by key): IDIV_SEL/FBDIV_SEL/ODIV_SEL/DYN_SDIV_SEL/
+    PSDA_SEL, BOTH source selectors and all four output ports. -/
+theorem gw1n_params_emitted (dn dv : String) (r : GReq) (c : GCfg) :
+    (gEmit dn dv r c).get "p_IDIV_SEL" = some (.int ((c.idiv - 1 : Nat) : Int)) ∧
+    (gEmit dn dv r c).get "p_FBDIV_SEL" = some (.int ((c.fdiv - 1 : Nat) : Int)) ∧
+    (gEmit dn dv r c).get "p_ODIV_SEL" = some (.int (c.odiv : Int)) ∧
+    (gEmit dn dv r c).get "p_DYN_SDIV_SEL" = some (.int (c.sdiv : Int)) ∧
+    (gEmit dn dv r c).get "p_PSDA_SEL" = some (.str (bin4 c.psda)) ∧
+    (gEmit dn dv r c).get "p_CLKOUTD_SRC" = some (.str (gSrc r c 3)) ∧
+    (gEmit dn dv r c).get "p_CLKOUTD3_SRC" = some (.str (gSrc r c 2)) ∧
+    (gEmit dn dv r c).get "o_CLKOUT" = some (gPortTok c 0) ∧
+    (gEmit dn dv r c).get "o_CLKOUTP" = some (gPortTok c 1) ∧
+    (gEmit dn dv r c).get "o_CLKOUTD" = some (gPortTok c 3) ∧
+    (gEmit dn dv r c).get "o_CLKOUTD3" = some (gPortTok c 2) :=
+  gEmit_get dn dv r c
+
+/-- params_match (source selectors / wiring): the clock `i` recorded for a pin was put on that pin by the configuration,
+    the pin's port is wired to clock `i`, and the pin's source selector is "CLKOUT" iff THAT clock was requested with
+    phase 0 (else the PSDA-shifted "CLKOUTP" tap) — per pin, so CLKOUTD3 follows the /3 clock, not the CLKOUTD one. -/
+theorem gw1n_params_source_selectors (r : GReq) (c : GCfg) (pin i : Nat) (o : Out)
+    (h : gPinClock c.pins pin = some i) (ho : r.outs[i]? = some o) :
+    c.pins[i]? = some pin ∧ gSrc r c pin = (if o.phase.num = 0 then "CLKOUT" else "CLKOUTP") ∧
+    gPortTok c pin = .tok (clkTok i) :=
+  gSrc_spec r c pin i o h ho
+
+theorem gw1n_params_unused_pin (r : GReq) (c : GCfg) (pin : Nat) (h : gPinClock c.pins pin = none) :
+    gSrc r c pin = "CLKOUT" ∧ gPortTok c pin = .tok "open" :=
+  gSrc_unused r c pin h
+
+/-! non-vacuity (the request of seeded change C20-r4m2): GW1NR, 27 MHz in, 90 MHz@0° + 30 MHz@90°: the /3 clock sits
+    on CLKOUTD3 taken from the shifted tap while the unused CLKOUTD keeps the default. -/
+example : gSearch gw1nr ⟨⟨27000000, 1⟩, ⟨0, 1⟩,
+      [⟨⟨90000000, 1⟩, ⟨0, 1⟩, ⟨1, 100⟩⟩, ⟨⟨30000000, 1⟩, ⟨90, 1⟩, ⟨1, 100⟩⟩]⟩ = .ok ⟨3, 10, 8, 2, 4, [0, 2]⟩ := by
+  decide +kernel
+example : let r : GReq := ⟨⟨27000000, 1⟩, ⟨0, 1⟩, [⟨⟨90000000, 1⟩, ⟨0, 1⟩, ⟨1, 100⟩⟩, ⟨⟨30000000, 1⟩, ⟨90, 1⟩, ⟨1, 100⟩⟩]⟩
+    let e := gEmit "GW1NR-9C" "GW1NR-LV9QN88PC6/I5" r ⟨3, 10, 8, 2, 4, [0, 2]⟩
+    e.get "p_CLKOUTD3_SRC" = some (.str "CLKOUTP") ∧ e.get "p_CLKOUTD_SRC" = some (.str "CLKOUT") ∧
+    e.get "o_CLKOUTD3" = some (.tok "clkout1") ∧ e.get "o_CLKOUTD" = some (.tok "open") ∧
+    e.get "p_PSDA_SEL" = some (.str "0100") := by
+  decide +kernel
+
+/-- params_match (iCE40): DIVR/DIVF/DIVQ, the output port and the FILTER_RANGE chosen from the PFD frequency. -/
+theorem ice40_params_emitted (pad : Bool) (clkin : Q) (c : ICfg) :
+    (iEmit pad clkin c).get "p_DIVR" = some (.int (c.divr : Int)) ∧
+    (iEmit pad clkin c).get "p_DIVF" = some (.int (c.divf : Int)) ∧
+    (iEmit pad clkin c).get "p_DIVQ" = some (.int (c.divq : Int)) ∧
+    (iEmit pad clkin c).get "o_PLLOUTGLOBAL" = some (.tok (clkTok 0)) ∧
+    (∀ v, iFilterRange clkin c.divr = some v → (iEmit pad clkin c).get "p_FILTER_RANGE" = some (.int (v : Int))) :=
+  iEmit_get pad clkin c
+
+/-- params_match (ECP5): input/feedback dividers and feedback path by key; every enabled output `n` (requested or the
+    spare feedback output) carries ITS divider, the FPHASE/CPHASE split of ITS phase word, and port CLKO<n> = clock n. -/
+theorem ecp5_params_emitted (r : EReq) (c : ECfg) :
+    (eEmit r c).get "p_CLKI_DIV" = some (.int (c.clkiDiv : Int)) ∧
+    (eEmit r c).get "p_CLKFB_DIV" = some (.int (c.clkfbDiv : Int)) ∧
+    (eEmit r c).get "p_FEEDBK_PATH" = some (.str ("INT_O" ++ n2l c.clkfb)) ∧
+    ∀ n dv, c.divs[n]? = some dv → ∀ kv ∈ eOutItems r n dv, kv ∈ eEmit r c :=
+  ⟨(eEmit_get r c).1, (eEmit_get r c).2.1, (eEmit_get r c).2.2, eEmit_outs r c⟩
+
+/-- params_match (NX): feedback divider (DIVF = DELF = clkfb_div − 1 on the CLKOS5 feedback path) by key, the items of
+    every output by membership.  (REF_MMD_DIG: see `nx_params_match_partial`.) -/
+theorem nx_params_emitted (r : NReq) (c : NCfg) :
+    (nEmit r c).get "p_DIVF" = some (.str (toString ((c.clkfbDiv : Int) - 1))) ∧
+    (nEmit r c).get "p_DELF" = some (.str (toString ((c.clkfbDiv : Int) - 1))) ∧
+    (nEmit r c).get "p_SEL_FBK" = some (.str "FBKCLK5") ∧
+    ∀ n dv o, (c.divs.zip r.outs)[n]? = some (dv, o) → ∀ kv ∈ nOutItems n dv o, kv ∈ nEmit r c :=
+  ⟨(nEmit_get r c).1, (nEmit_get r c).2.1, (nEmit_get r c).2.2.1, nEmit_outs r c⟩
+
+/-- params_match (ALTPLL): every requested output `n` carries DIVIDE_BY = cₙ·n_div and MULTIPLY_BY = m under its own key. -/
+theorem intel_params_emitted (nmax : Nat) (r : AReq) (c : ACfg) (n : Nat) (cv : Q) (o : Out)
+    (h : (c.cs.zip r.outs)[n]? = some (cv, o)) :
+    (s!"p_CLK{n}_DIVIDE_BY", pvDiv (cv.mulNat c.n)) ∈ aEmit nmax r c ∧
+    (s!"p_CLK{n}_MULTIPLY_BY", PV.int (c.m : Int)) ∈ aEmit nmax r c :=
+  ⟨aEmit_outs nmax r c n cv o h _ (aOutItems_spec r c n cv o).1, aEmit_outs nmax r c n cv o h _ (aOutItems_spec r c n cv o).2⟩
+
+/-- params_match (Xilinx PLL_ADV / PLLE2_ADV / MMCME2_ADV / MMCME4_ADV): input divider and multiplier by key (under the
+    primitive's own name), every output's divider (`CLKOUT0_DIVIDE_F` on an MMCM) and port CLKOUT<n> = clock n. -/
+theorem xilinx_params_emitted (k : XKind) (of : String) (usp : Bool) (r : XReq) (c : XCfg) (hk : k ≠ .s6dcm) :
+    (xEmit k of usp r c).get "p_DIVCLK_DIVIDE" = some (.int (c.divclk : Int)) ∧
+    (xEmit k of usp r c).get "i_CLKFBIN" = (xEmit k of usp r c).get "o_CLKFBOUT" ∧
+    ∀ n dv o, (c.ds.zip r.outs)[n]? = some (dv, o) →
+      (s!"o_CLKOUT{n}", PV.tok (clkTok n)) ∈ xEmit k of usp r c ∧
+      ((if k = .mmcm ∧ n = 0 then s!"p_CLKOUT{n}_DIVIDE_F" else s!"p_CLKOUT{n}_DIVIDE"),
+        if usp ∧ n = 0 then PV.flt dv.toSQ else pvDiv dv) ∈ xEmit k of usp r c :=
+  ⟨(xEmit_get k of usp r c hk).1, (xEmit_get k of usp r c hk).2.2, fun n dv o h =>
+    ⟨xEmit_outs k of usp r c hk n dv o h _ (xOutItems_spec k usp n dv o).1,
+     xEmit_outs k of usp r c hk n dv o h _ (xOutItems_spec k usp n dv o).2⟩⟩
+
+theorem xilinx_params_multiplier (of : String) (usp : Bool) (r : XReq) (c : XCfg) :
+    (xEmit .pll of usp r c).get "p_CLKFBOUT_MULT" = some (if usp then .flt c.mult.toSQ else pvDiv c.mult) ∧
+    (xEmit .s6pll of usp r c).get "p_CLKFBOUT_MULT" = some (if usp then .flt c.mult.toSQ else pvDiv c.mult) ∧
+    (xEmit .mmcm of usp r c).get "p_CLKFBOUT_MULT_F" = some (if usp then .flt c.mult.toSQ else pvDiv c.mult) ∧
+    (xEmit .s6dcm of usp r c).get "p_CLKFX_MULTIPLY" = some (if usp then .flt c.mult.toSQ else pvDiv c.mult) ∧
+    (xEmit .s6dcm of usp r c).get "p_CLKFX_DIVIDE" = some (pvDiv ((c.ds.headD Q.zero).mulNat c.divclk)) :=
+  xEmit_mult of usp r c
+
+/-- CologneChip CC_PLL (no search): an accepted request is realised — every requested clock runs at OUT_CLK, or at
+    2·OUT_CLK on a 180°/270° output — and OUT_CLK / CLKxxx_DOUB carry exactly that. -/
+theorem gatemate_params_emitted (r : MReq) (h : mLegal r = true) :
+    (∃ base, mBase r.outs = some base ∧ ∀ o ∈ r.outs, o.1 ∈ [0, 90, 180, 270] ∧
+      (o.2.beq base = true ∨ ((o.1 = 180 ∨ o.1 = 270) ∧ o.2.beq (base.mulNat 2) = true))) ∧
+    (mEmit r).get "p_CLK180_DOUB" = some (.int (match mFreqOf r 180 with
+      | some f => if f.beq (((mBase r.outs).getD Q.zero).mulNat 2) then 1 else 0 | none => 0)) ∧
+    (mEmit r).get "p_CLK270_DOUB" = some (.int (match mFreqOf r 270 with
+      | some f => if f.beq (((mBase r.outs).getD Q.zero).mulNat 2) then 1 else 0 | none => 0)) :=
+  ⟨mLegal_spec r h, (mEmit_get r).2.1, (mEmit_get r).2.2⟩
+
+example : mLegal ⟨⟨10000000, 1⟩, "speed", 1, 1, false, [(0, ⟨50000000, 1⟩), (180, ⟨100000000, 1⟩)]⟩ = true ∧
+    (mEmit ⟨⟨10000000, 1⟩, "speed", 1, 1, false, [(0, ⟨50000000, 1⟩), (180, ⟨100000000, 1⟩)]⟩).get "p_CLK180_DOUB"
+      = some (.int 1) := by decide +kernel
+
+/-! ## Gowin GW5A (`GW5APLL.compute_config` / `do_finalize`) -/
+
+/-- search_sound for everything the code checks: IDIV/FBDIV in 1..63, MDIV in 2..127, PFD and VCO inside their windows
+    (VCO with `vco_margin`), and per requested output an ODIV ≥ 1 with `|vco/odiv − f| ≤ f·margin`, the phase error of the
+    rounded phase step within the margin, and (pe, pe_fine) = (int(p·odiv/360), round(p·odiv·8/360) mod 8). -/
+theorem gw5a_search_sound_noodiv (d : WDev) (r : WReq) (c : WCfg) (h : wSearch d r = .ok c) : WValidNoOdiv d r c :=
+  wSearch_sound h
+
+/-  Full statement (FALSE on the code):  wSearch d r = .ok c → WValid d r c   (WValid adds ODIVx_SEL ≤ 128).
+    `odiv = round(vco/f)` is never checked against the primitive's range (known finding C20-gw5a-odiv-unchecked). -/
+/-- search_sound under the hypothesis that every chosen output divider is inside the primitive's range 1..128. -/
+theorem gw5a_search_sound_partial (d : WDev) (r : WReq) (c : WCfg) (h : wSearch d r = .ok c)
+    (ho : ∀ o ∈ c.outs, o.odiv ≤ 128) : WValid d r c :=
+  wSearch_sound_partial h ho
+
+/-- Negative witness (real GW5A-25 table, full search): 50 MHz in, 5 MHz out ± 1 % → ODIV0 = 160 > 128. -/
+example : wSearch gw5a25 wWitReq = .ok wWitCfg ∧ (wWitCfg.outs.map (·.odiv)) = [160] ∧ ¬ WValid gw5a25 wWitReq wWitCfg :=
+  ⟨wSearch_witness, rfl, wWitness_not_valid⟩
+/-- the tables used by the witnesses are the regenerated ones. -/
+example : (Gen.gw5a.find? (·.1 == "GW5A")).map (·.2) = some gw5a25 ∧ (Gen.gw5a.find? (·.1 == "GW5AT")).map (·.2) = some gw5at ∧
+    Gen.trion = trionDev := by decide
+/-- non-vacuity: 50 MHz → 100 MHz is accepted with ODIV0 = 8 and that configuration is fully valid. -/
+example : wSearch gw5a25 wOkReq = .ok wOkCfg ∧ WValid gw5a25 wOkReq wOkCfg :=
+  ⟨wSearch_ok_example, wSearch_sound_partial wSearch_ok_example (by decide)⟩
+
+/-- search_best: the returned configuration is a kept grid point and its sum of relative errors is ≤ that of every kept
+    grid point (the best-of selection is optimal). -/
+theorem gw5a_search_best (d : WDev) (r : WReq) (x : WCfg × Q) (hc : 0 < r.clkin.den)
+    (ho : ∀ o ∈ r.outs, 0 < o.freq.num ∧ 0 < o.freq.den) (h : wSearchAcc d r = .ok x) :
+    (∃ t ∈ wGrid d r, wTryT d r t = .ok x) ∧ ∀ t ∈ wGrid d r, ∀ y, wTryT d r t = .ok y → x.2.le y.2 = true :=
+  wSearch_best hc ho h
+
+/-- search_complete w.r.t. the code's own divider choice: "No PLL config found" only if at EVERY (idiv, fdiv, mdiv) of the
+    declared ranges with PFD and VCO inside their windows some output fails its margin or phase test at
+    `odiv = round(vco/f)` (the enumeration skips nothing). -/
+theorem gw5a_search_complete (d : WDev) (r : WReq) (h : wSearch d r = .rejected) (idiv fdiv mdiv : Nat)
+    (hi : idiv ∈ pyRange 1 64) (hf : fdiv ∈ pyRange 1 64) (hm : mdiv ∈ pyRange 2 128)
+    (hp : inRange d.pfdMin d.pfdMax (r.clkin.divNat idiv) = true)
+    (hv : inRangeM d.vcoMin d.vcoMax r.vcoMargin (wVco r.clkin idiv fdiv mdiv) = true) :
+    (∀ o ∈ r.outs, 1 ≤ wOdiv (wVco r.clkin idiv fdiv mdiv) o.freq) ∧
+    ∃ o ∈ r.outs,
+      o.margin.lt (wPhaseErr o.phase (wOdiv (wVco r.clkin idiv fdiv mdiv) o.freq)) = true ∨
+      within ((wVco r.clkin idiv fdiv mdiv).divNat (wOdiv (wVco r.clkin idiv fdiv mdiv) o.freq)) o = false :=
+  wSearch_rejected_complete h hi hf hm hp hv
+
+/-- the ZeroDivisionError of `vco/odiv` is raised exactly when some in-window grid point has an output with
+    `round(vco/f) = 0` (an output above twice the VCO). -/
+theorem gw5a_crash_iff (d : WDev) (r : WReq) :
+    wSearch d r = .crash ↔
+    ∃ t ∈ wGrid d r, inRangeM d.vcoMin d.vcoMax r.vcoMargin (wVco r.clkin t.1 t.2.1 t.2.2) = true ∧
+      ∃ o ∈ r.outs, wOdiv (wVco r.clkin t.1 t.2.1 t.2.2) o.freq = 0 :=
+  wSearch_crash_iff
+
+/-- params_match (PLLA / PLL): IDIV_SEL/FBDIV_SEL/MDIV_SEL by key; every requested output `n` carries ITS ODIVn_SEL,
+    PE_COARSE, PE_FINE, is enabled and drives port CLKOUT<n>. -/
+theorem gw5a_params_emitted (device : String) (r : WReq) (c : WCfg) :
+    (wEmit device r c).get "p_IDIV_SEL" = some (.int (c.idiv : Int)) ∧
+    (wEmit device r c).get "p_FBDIV_SEL" = some (.int (c.fdiv : Int)) ∧
+    (wEmit device r c).get "p_MDIV_SEL" = some (.int (c.mdiv : Int)) ∧
+    ∀ n w, n < 7 → c.outs[n]? = some w →
+      (s!"p_ODIV{n}_SEL", PV.int (w.odiv : Int)) ∈ wEmit device r c ∧
+      (s!"p_CLKOUT{n}_PE_COARSE", PV.int w.pe) ∈ wEmit device r c ∧
+      (s!"p_CLKOUT{n}_PE_FINE", PV.int w.peFine) ∈ wEmit device r c ∧
+      (s!"p_CLKOUT{n}_EN", PV.str "TRUE") ∈ wEmit device r c ∧
+      (s!"o_CLKOUT{n}", PV.tok (clkTok n)) ∈ wEmit device r c := by
+  refine ⟨rfl, rfl, rfl, fun n w hn hw => ?_⟩
+  have hs := wEmit_slots device r c n hn
+  rw [hw] at hs
+  obtain ⟨a, b, c', d', e⟩ := wSlotItems_spec n w
+  exact ⟨hs _ a, hs _ b, hs _ c', hs _ d', hs _ e⟩
+
+/-! ## Efinix Trion (`EFINIXPLL.compute_config`, feedback mode; tree with the fPLL-maximum fix) -/
+
+/-- search_sound: N in 1..15, M in 1..255, O a legal post divider, PFD, VCO and PLL (= VCO/O) frequencies inside their
+    declared windows, M·O·Cfbk ≤ 255, every output divider legal for the output's phase and `fPLL/C = f` EXACTLY, the
+    feedback output's divider is Cfbk. -/
+theorem trion_search_sound (d : TDev) (r : TReq) (c : TCfg) (hden : 0 < r.clkin.den) (hpfd : 0 < d.pfdMax.num)
+    (hfd : ∀ o ∈ r.outs, 0 < o.freq.den) (h : tSearch d r = .ok c) : TValid d r c :=
+  tSearch_sound hden hpfd hfd h
+
+/-- search_complete: the AssertionError (`final_list` empty) is raised only if NO setting inside the declared ranges
+    satisfies the request (well-formed table and request: positive numerators/denominators, positive dividers). -/
+theorem trion_search_complete (d : TDev) (r : TReq) (wf : TWf d r) (h : tSearch d r = .assertion) :
+    ∀ c, ¬ TValid d r c :=
+  fun c => tSearch_complete wf h c
+
+/-- the fixed finding C20-trion-fpll-max-unchecked, universally: a returned configuration keeps fPLL inside its window. -/
+theorem trion_pll_window (d : TDev) (r : TReq) (c : TCfg) (hden : 0 < r.clkin.den) (hpfd : 0 < d.pfdMax.num)
+    (hfd : ∀ o ∈ r.outs, 0 < o.freq.den) (h : tSearch d r = .ok c) :
+    d.pllMin.le (c.pll r) = true ∧ (c.pll r).le d.pllMax = true :=
+  tSearch_pll_in_window hden hpfd hfd h
+
+/-! non-vacuity: 16 MHz in, 16 MHz feedback output (witness of the fixed finding): the pre-fix answer (fPLL 3600 MHz)
+    is not valid, a valid setting exists, hence (completeness) the search does not refuse; kernel evaluation of the
+    whole search on the table with the phase-0 divider range cut to 1..16. -/
+example : ¬ TValid trionDev trionReq16to16 ⟨1, 1, 1, 225, [225]⟩ ∧ TValid trionDev trionReq16to16 ⟨1, 1, 8, 28, [28]⟩ ∧
+    tSearch trionDev trionReq16to16 ≠ .assertion :=
+  ⟨trion_invalid_16to16_pll3600, trion_valid_16to16, trion_16to16_ne_assertion⟩
+example : tSearch { trionDev with c0Hi := 17 } trionReq50to100 = .ok ⟨1, 2, 4, 9, [9]⟩ := trion_search_50to100_c16
 
 end Litex.C20
